@@ -153,6 +153,23 @@ CHECKS = {
              'serves every rule of the URL map. ~14 600 requests.',
         note='hp2dec/dec2hp are the reference for the DMS angle type (decided by C08).',
         design='§5/C20'),
+    'C17': dict(
+        text='Generated .gsb files (validated by an independent struct reader): single / two disjoint / parent+child / parent+two '
+             'children layouts, shapes from {3,4,5,8,60}^2, increments 30-3600", both hemispheres, east/west longitudes, fractional '
+             'extents, constant/linear/bi-quadratic/cubic float32-exact fields that differ per sub-grid; per sub-grid EVERY cell '
+             '(outer two rings + diagonals for 60-wide grids) x 6 positions, closing edge nodes, points 1e-9 deg inside/outside each '
+             'extent edge; bilinear and bicubic; metadata read-back; finest-sub-grid rule; None/ValueError outside; ntv2_2d signs.',
+        note='Generator files only; points exactly on a north/west edge may return no value (half-open extents) but never a wrong one.',
+        design='§5/C17'),
+    'C18': dict(
+        text='Generated SINEX 2.02 files (1-6 stations quick / 1-12 thorough, solution numbers 1-3, with/without velocities, L/U, '
+             'dense and block-diagonal SPD covariance): remove_stns_sinex with EVERY subset of stations except all, '
+             'remove_velocity_sinex, remove_matrixzeros_sinex and the three readers; output parsed by a strict fixed-column '
+             'SINEX parser and compared with a list/numpy.delete model (value-exact); the wall clock is a seam: 9 times x 6 '
+             'days-of-year as single deviations and all pairs on small files, outputs identical except the time stamp.',
+        note='pandas stub registered so geodepy.gnss imports offline; clock seam replaces geodepy.gnss.datetime.',
+        technique='bounded exhaustive enumeration of file shapes x removal subsets x environment answers (clock) on the real code against a reference model',
+        design='§5/C18'),
 }
 
 ALL = ['C%02d' % i for i in range(1, 21)]
